@@ -397,13 +397,16 @@ def s6(rep):
     f = common.extract("tfsat.c", trees=["tfSatMap0"])
     fn = f.func("tfSatMap0")
     inner = None
+
+    def from_inner(e):
+        return e is not None and any(y.get("mac") == "tfSatInner" or y.get("imac") == "tfSatInner" for y in walk(e))
     for x in walk(fn["body"]):
         for d in (x.get("decls", []) if x["k"] == "DeclStmt" else []):
-            if d.get("init") is not None and d.get("t") == "SatMask":
-                txt = common.render(d["init"])
-                # tfSatInner(m) expands to a mask expression that clears the embedding bits of m
-                if "mask" in txt and ("&" in txt):
-                    inner = d["n"]
+            if d.get("init") is not None and from_inner(d["init"]):
+                inner = d["n"]
+        if x["k"] == "BinaryOperator" and x["op"] == "=" and strip(x["c"][0]) is not None and strip(x["c"][0])["k"] == "DeclRefExpr" \
+                and from_inner(x["c"][1]):
+            inner = strip(x["c"][0])["n"]
     if inner is None:
         raise AnalysisBroken("tfSatMap0: `SatMask mask0 = tfSatInner(mask)` not found")
     cs = [c for c in calls(fn["body"], "tfSat")]
